@@ -351,7 +351,122 @@ def c12(ctx):
     corpus_validate(ctx, scripts, "c12tests")
 
 
+def c10(ctx):
+    ctx.rule = ("all 34 x 34 ordered pairs of pool values (atoms, lists/objects to depth 2 built by literal, "
+                "concatenation, range, index assignment, insertion in both key orders, shared child, "
+                "self-containing, functions) compared with == != both ways then printed; === !== on all container / "
+                "function pairs; every value against its alias; operands sharing sub-structure ([a] == a ...). "
+                "Spec-level laws (reflexive, symmetric, transitive over triples, copies equal, != negation, "
+                "=== laws) are ASSUMEs over a 32-cell constant heap. non-trivial = every pair; distinct = "
+                "distinct parameter tuples")
+    out = ctx.run_model("MC_C10", "C10Params", invariants=["C10Laws"], props=FRAME_PROPS + ["CompareFrame"])
+    ctx.notes.append("ASSUME EqReflexive, EqSymmetric, EqTransitive (all triples of the data pool), EqCopies, "
+                     "EqErrNamesTypes, EqAtomKinds, EqFuncsError, NeIsNegation, RefLaws checked by TLC at start-up")
+    ctx.replay(out, "c10", seeds=(None,) if ctx.quick else (None, ctx.seed, ctx.seed + 1))
+    scripts = [s for s in repo_test_scripts() if "equality" in s[0]]
+    corpus_validate(ctx, scripts, "c10tests")
+
+
+def c05(ctx):
+    hl = 2 if ctx.quick else 3
+    ctx.rule = ("all histories of 1..%d operations out of 20 list operations (alias, 6 copy-builds, mutations "
+                "through index / op-assign / range / parameter / closure / container / returned alias) and 12 "
+                "object operations over variables a, b, c; every variable and every === pair printed after "
+                "every step (histories <= 2) or at the end; plus immutability of ints / strings; non-trivial = "
+                "every history; distinct = distinct parameter tuples" % hl)
+    out = ctx.run_model("MC_C05", "C05Params", props=FRAME_PROPS + ["BuildFresh", "IdentityIsCell"],
+                        constants={"HistLen": "= %d" % hl}, max_steps=6000)
+    ctx.replay(out, "c05", seeds=(None,) if ctx.quick else (None, ctx.seed))
+    scripts = [s for s in repo_test_scripts() if "ref" in s[0] or "mutation" in s[0] or "concatenation" in s[0]]
+    corpus_validate(ctx, scripts, "c05tests")
+
+
+def rename_ast(node, mapping):
+    if isinstance(node, dict):
+        out = {}
+        for kx, v in node.items():
+            if kx == "name" and isinstance(v, list) and node.get("t") in ("var", "fn"):
+                out[kx] = mapping.get(bytes(v), bytes(v))
+                out[kx] = list(out[kx])
+            else:
+                out[kx] = rename_ast(v, mapping)
+        return out
+    if isinstance(node, list):
+        return [rename_ast(v, mapping) for v in node]
+    return node
+
+
+def renaming_check(ctx, cases, name, mapping):
+    """Consistently renaming declared variables never changes what is printed:
+    the renamed program must print exactly what the specification predicted
+    for the original (stdout and exit status; diagnostics mention the names)."""
+    plain = sv.build(False)
+    d = sv.scratch("rename-" + name)
+    jobs = [(i, key, body, o) for i, (key, body, o) in enumerate(cases)
+            if o is not None and o["status"]["k"] in ("done", "failed")]
+
+    def one(job):
+        i, key, body, o = job
+        pl = rp.Placed(rename_ast(body, mapping))
+        fn = "r%d.sd" % i
+        with open(os.path.join(d, fn), "w", encoding="utf-8") as f:
+            f.write(pl.text)
+        so, se, code = sv.run_seed(plain, fn, d)
+        exp_out = b"".join(bytes(x) + b"\n" for x in o["out"])
+        exp_code = 0 if o["status"]["k"] == "done" else 103
+        if so != exp_out or code != exp_code:
+            return (key, pl.text, so, se, code, exp_out, exp_code)
+        return None
+    res = sv.pmap(one, jobs)
+    ctx.evaluations += len(jobs)
+    ctx.validated += len(jobs)
+    for r in res:
+        if r:
+            key, text, so, se, code, eo, ec = r
+            ctx.violation("a consistently renamed program prints something else (%s %s)" % (name, key),
+                          script=text,
+                          detail={"expected_stdout": eo.decode(errors="replace"), "expected_exit": ec,
+                                  "stdout": so.decode(errors="replace"),
+                                  "stderr": se.decode(errors="replace"), "exit": code})
+
+
+def c04(ctx):
+    tl = 4 if ctx.quick else 5
+    ctx.rule = ("every well-formed token sequence of length <= %d over {x := k, x = k, print(x), y := k, print(y), "
+                "open block, open `fn f() {`, open `for _ in [1,2] {`, close, f()(), f(), guarded recursion}; every "
+                "fn body returns a closure that updates and prints x (run after its defining scope ended by f()()); "
+                "each program and its consistent renaming (x,y,f,d -> fresh names) replayed; non-trivial = every "
+                "sequence with at least one scope construct or two events; distinct = distinct token sequences" % tl)
+    out = ctx.run_model("MC_C04", "C04Params", props=FRAME_PROPS + ["FreshPerEntry", "ShadowFrame"],
+                        constants={"TokLen": "= %d" % tl}, max_steps=700)
+    cases, _ = ctx.replay(out, "c04", seeds=(None,) if ctx.quick else (None, ctx.seed),
+                          nontrivial=lambda k, b, o: len(json.loads(k)[1]) >= 2)
+    renaming_check(ctx, cases, "c04", {b"x": b"first_var", b"y": b"y2", b"f": b"fun_c", b"d": b"depth0"})
+    scripts = [s for s in repo_test_scripts()
+               if "scope" in s[0] or "closure" in s[0] or "functions" in s[0] or "variables" in s[0]]
+    corpus_validate(ctx, scripts, "c04tests")
+
+
+def c20(ctx):
+    sl = 3 if ctx.quick else 4
+    ctx.rule = ("every sequence of 1..%d events out of 19 (declare through :=, list / object destructuring, fn, "
+                "for target, parameter; assign; op-assign; read; over x, y, _) at top level, and with the tail "
+                "inside a block / call / for / if / while; 9 non-bindable expression kinds x 9 binding positions; "
+                "an independent declarative oracle (fold over the events with the declared-name set) must agree "
+                "with the machine on every flat sequence; non-trivial = every sequence; distinct = distinct "
+                "parameter tuples" % sl)
+    out = ctx.run_model("MC_C20", "C20Params", invariants=["C20Laws"], props=FRAME_PROPS + ["ShadowFrame"],
+                        constants={"SeqLen": "= %d" % sl})
+    ctx.replay(out, "c20", seeds=(None,) if ctx.quick else (None, ctx.seed))
+    scripts = [s for s in repo_test_scripts() if "scope" in s[0] or "variables" in s[0] or "runtime_errors" in s[0]]
+    corpus_validate(ctx, scripts, "c20tests")
+
+
 REGISTRY = {
+    "C04": c04,
+    "C20": c20,
+    "C05": c05,
+    "C10": c10,
     "C11": c11,
     "C12": c12,
     "C16": c16,
